@@ -7,6 +7,10 @@ ids = [p['id'] for p in props]
 
 # id -> (technique, level text, level note, design ref)
 CLAIMS = {
+ 'C05': ("bounded exhaustive two-run refinement check (abstract run vs every concrete instantiation) over expression ASTs x abstracted variable x abstraction kind, on the real evaluator",
+         "Every AST of the eleven expression families, every variable it refers to (one at a time and all at once), every abstraction kind (dynamic, typed unknown, not-null, string prefix, numeric bounds, collection length bounds) and every admitted concrete instantiation from the pool: the abstract result must approximate each concrete result (Appendix B relation: convertible type, equal known parts, typed unknown parts, satisfied refinements). The whole product is enumerated, so the statement is 'no program/abstraction/instantiation in the bounded space is unsound'.",
+         "Trusted: go-cty refinement accessors and conversion. Pairs where either run errors are outside the property's antecedent. Not reached: more than one variable abstracted with refinements at once (all-at-once uses plain typed unknowns), instantiations outside the pool alternatives.",
+         "DESIGN.md section 4 C05, Appendix B"),
  'C01': ("bounded exhaustive enumeration of expression/template ASTs x layout deviations on the real parser and evaluator, compared with a reference interpreter written from the specification",
          "Every AST of eleven families (all unary/binary/conditional forms over a 42-atom pool of every cty kind, all ordered operator pairs in both groupings, index/attr/splat/for/call/constructor/template products, two-level nesting) is rendered canonically and with every single layout deviation, redundant parenthesisation and CRLF variant, parsed and evaluated by the implementation and compared (value and exact type, or error presence) with an independent reference interpreter; all renderings must agree with each other. The result is a coverage statement over the whole bounded product.",
          "Trusted: go-cty values/conversion/unification/arithmetic. Spec-silent behaviours (DESIGN.md 3.2) are accepted as Unspecified. Not reached: ASTs beyond the family bounds, >1 simultaneous layout deviation in the quick tier, capsule types, user function specs beyond the 6-function table.",
